@@ -340,6 +340,29 @@ pub fn pair_alphabet_trees() -> Vec<Value> {
     }
     out
 }
+/// Pairs of *related* values side by side: the same number written as integer / float / string, the JSON
+/// literals and their spellings as strings, empty containers and their spellings, equal values (x next to x).
+pub fn value_pair_trees() -> Vec<Value> {
+    let vals = [
+        json!(1), json!(1.0), json!("1"), json!("1.0"), json!(true), json!("true"), Value::Null, json!("null"), json!(0), json!(0.0), json!(-0.0), json!("0"), json!(""), json!([]), json!({}),
+        json!("[]"), json!("{}"), json!([null]), json!([[]]), json!({"a": null}), json!(1e2), json!(100), json!("1e2"),
+    ];
+    let mut out = vec![];
+    for x in &vals {
+        for y in &vals {
+            for t in [json!({"a": {"a": x, "b": y}}), json!({"a": [x, y]}), json!({"a": x, "b": y}), json!({"a": [{"a": x}, {"a": y}]}), json!({"a": [[x], [y]]})] {
+                let mut m = Map::new();
+                m.insert("iss".into(), json!(gen::ISS));
+                m.insert("exp".into(), json!(gen::EXP));
+                for (k, v) in t.as_object().unwrap() {
+                    m.insert(k.clone(), v.clone());
+                }
+                out.push(Value::Object(m));
+            }
+        }
+    }
+    out
+}
 pub fn pair_strategies(_u: &Value) -> Vec<Strat> {
     vec![Strat::Top, Strat::All, Strat::Custom(vec!["$.a".into()]), Strat::Custom(vec!["$.a".into(), "$.a.b".into(), "$.a[1]".into()])]
 }
